@@ -245,10 +245,18 @@ theorem blocksOf_flatten_le {d data : List Nat} (hd : d ≠ []) (offs : List Nat
       show o + (o' - o) = o' by omega]
     exact take_sub_append_drop data (seekPos_mono (by omega) (by omega))
 
-theorem lengthsOf_head_shift (size : Nat) (os : List Nat) :
-    shiftHead (0 :: os, lengthsOf size (0 :: os)) = (1 :: os, lengthsOf size (1 :: os)) := by
+theorem lengthsOf_head_shift (size : Nat) (os : List Nat) (hpos : ∀ x ∈ os, 0 < x) :
+    shiftHead (0 :: os, lengthsOf size (0 :: os)) =
+      match os with
+      | o' :: r => if o' = 1 then (o' :: r, lengthsOf size (o' :: r)) else (1 :: o' :: r, lengthsOf size (1 :: o' :: r))
+      | [] => ([1], lengthsOf size [1]) := by
   cases os with
   | nil => simp [shiftHead, lengthsOf]
-  | cons o' r => simp [shiftHead, lengthsOf]
+  | cons o' r =>
+    have h0 : 0 < o' := hpos o' (by simp)
+    by_cases h : o' = 1
+    · subst h; simp [shiftHead, lengthsOf]
+    · have h1 : ¬ o' - 1 = 0 := by omega
+      simp [shiftHead, lengthsOf, h, h1]
 
 end Dask.TextBlocks
